@@ -443,6 +443,118 @@ def kmerge {μ} (le : μ → μ → Bool) : List (List μ) → List μ
   | [] => []
   | l :: rest => List.merge l (kmerge le rest) le
 
+/-! ## E. Backup (`Snapshot.Backup`, `bluge.Reader.Backup`) and which snapshot a reader opens
+
+`Snapshot.Backup(remote, cancel)` persists every segment of the snapshot into `remote`, in snapshot order,
+and then the snapshot itself; the first `Persist` that fails ends the backup (`return fmt.Errorf(…)`).
+`bluge.Reader.Backup(path, cancel)` is that call on `index.NewFileSystemDirectory(path)`.
+`FileSystemDirectory.Persist` either completes — the file then holds exactly the new content, whatever was
+there before (C13 `persist_exact_durable`) — or fails — `cleanup()` closes and REMOVES the file, also one
+of that name that existed before (C13 `persist_fail_clean`). Which `Persist` fails is a parameter of the
+model (`failAt`): cancellation is one cause (a `WriterTo` that monitors `closeCh`), an I/O error another. -/
+
+/-- a segment of a reader's snapshot: id, documents in local-number order, deleted local numbers -/
+structure RSeg (α : Type) where
+  id : Nat
+  docs : List α
+  deleted : List Nat
+  deriving Repr, DecidableEq
+
+/-- the snapshot a `Reader` holds -/
+structure RSnap (α : Type) where
+  epoch : Nat
+  segs : List (RSeg α)
+  deriving Repr, DecidableEq
+
+/-- what a reader over a snapshot shows: per segment the documents and the deleted set, in snapshot order
+(global doc numbers are positions in this list of lists) -/
+def RSnap.content {α} (s : RSnap α) : List (List α × List Nat) := s.segs.map fun g => (g.docs, g.deleted)
+
+/-- what the snapshot FILE holds: per segment its id and the deleted set (`Snapshot.WriteTo`) -/
+def RSnap.entries {α} (s : RSnap α) : List (Nat × List Nat) := s.segs.map fun g => (g.id, g.deleted)
+
+/-- the logical documents of a content: the documents whose local number is not deleted, in order -/
+def contentAbs {α} (c : List (List α × List Nat)) : List α :=
+  c.flatMap fun p => (((List.range p.1.length).zip p.1).filter fun q => !p.2.contains q.1).map (·.2)
+
+/-- an index directory: segment files (id ↦ documents) and snapshot files (epoch ↦ entries); the FIRST
+entry of a key is the file (a later `put` shadows) -/
+structure BDir (α : Type) where
+  segFiles : List (Nat × List α) := []
+  snapFiles : List (Nat × List (Nat × List Nat)) := []
+  deriving Repr, DecidableEq
+
+def BDir.seg? {α} (d : BDir α) (id : Nat) : Option (List α) := d.segFiles.lookup id
+
+/-- a `Persist(ItemKindSegment, id, …)` that completes -/
+def BDir.putSeg {α} (d : BDir α) (id : Nat) (docs : List α) : BDir α :=
+  { d with segFiles := (id, docs) :: d.segFiles }
+
+/-- a `Persist(ItemKindSegment, id, …)` that fails: `cleanup()` removes the file -/
+def BDir.dropSeg {α} (d : BDir α) (id : Nat) : BDir α :=
+  { d with segFiles := d.segFiles.filter fun f => f.1 != id }
+
+/-- a `Persist(ItemKindSnapshot, epoch, …)` that completes (the file is replaced) -/
+def BDir.putSnap {α} (d : BDir α) (e : Nat) (ent : List (Nat × List Nat)) : BDir α :=
+  { d with snapFiles := (e, ent) :: d.snapFiles.filter fun f => f.1 != e }
+
+/-- a `Persist(ItemKindSnapshot, epoch, …)` that fails -/
+def BDir.dropSnap {α} (d : BDir α) (e : Nat) : BDir α :=
+  { d with snapFiles := d.snapFiles.filter fun f => f.1 != e }
+
+/-- the segment files present (`List(ItemKindSegment)`, as a set) -/
+def BDir.segIds {α} (d : BDir α) : List Nat := (d.segFiles.map (·.1)).eraseDups
+
+/-- the snapshot files present -/
+def BDir.snapEpochs {α} (d : BDir α) : List Nat := (d.snapFiles.map (·.1)).eraseDups
+
+/-- the loop `for j := range i.segment { remote.Persist(ItemKindSegment, …) }`; `k` = number of the next
+`Persist`; the result says which `Persist` failed, if one did -/
+def backupSegs {α} (failAt : Option Nat) : Nat → List (RSeg α) → BDir α → BDir α × Option Nat
+  | _, [], d => (d, none)
+  | k, g :: rest, d =>
+    if failAt = some k then (d.dropSeg g.id, some k)
+    else backupSegs failAt (k + 1) rest (d.putSeg g.id g.docs)
+
+/-- `Snapshot.Backup(remote, cancel)` into the directory `d`: the segments, then the snapshot; `true` = `nil`
+was returned -/
+def backup {α} (failAt : Option Nat) (s : RSnap α) (d : BDir α) : BDir α × Bool :=
+  match backupSegs failAt 0 s.segs d with
+  | (d', some _) => (d', false)
+  | (d', none) =>
+    if failAt = some s.segs.length then (d'.dropSnap s.epoch, false)
+    else (d'.putSnap s.epoch s.entries, true)
+
+/-- `loadSnapshot`: every segment the snapshot file names has to load -/
+def BDir.load {α} (d : BDir α) (ent : List (Nat × List Nat)) : Option (List (List α × List Nat)) :=
+  allSome (ent.map fun e => (d.seg? e.1).map fun docs => (docs, e.2))
+
+/-- one step of the walk of `OpenReader` over the snapshot files, written as a choice: the loadable
+snapshot with the greatest epoch wins (the code walks `List(ItemKindSnapshot)`, which is in descending
+order, and takes the first that loads; file names are unique) -/
+def pickSnap {α} (d : BDir α) (best : Option (Nat × List (List α × List Nat)))
+    (f : Nat × List (Nat × List Nat)) : Option (Nat × List (List α × List Nat)) :=
+  match d.load f.2 with
+  | none => best
+  | some c =>
+    match best with
+    | none => some (f.1, c)
+    | some b => if b.1 < f.1 then some (f.1, c) else best
+
+/-- `index.OpenReader` / `bluge.OpenReader`: the most recent snapshot that loads, with its content;
+`none` = "unable to find a usable snapshot" -/
+def BDir.openReader {α} (d : BDir α) : Option (Nat × List (List α × List Nat)) :=
+  d.snapFiles.foldl (pickSnap d) none
+
+/-- every snapshot file of the directory loads (an index directory as a writer or a completed backup leaves it) -/
+def BDir.closed {α} (d : BDir α) : Prop := ∀ f ∈ d.snapFiles, (d.load f.2).isSome = true
+
+/-- the target already holds segment files of the SAME index (an earlier backup): a file with the id of a
+segment of `s` has that segment's documents (segment ids are never re-used for other content, C06
+`sid_never_returns`) -/
+def BDir.agrees {α} (d : BDir α) (s : RSnap α) : Prop :=
+  ∀ g ∈ s.segs, ∀ x, d.seg? g.id = some x → x = g.docs
+
 /-! ## witnesses and small derived notions used by the theorems -/
 
 /-- one segment with documents 0:"x" 1:"x y" 2:"x z" 3:"y"; the should clauses are the terms y, z -/
